@@ -4,6 +4,7 @@ package props
 import (
 	_ "github.com/bandprotocol/chain/v3/zzverif/props/c01"
 	_ "github.com/bandprotocol/chain/v3/zzverif/props/c03"
+	_ "github.com/bandprotocol/chain/v3/zzverif/props/c04"
 	_ "github.com/bandprotocol/chain/v3/zzverif/props/c05"
 	_ "github.com/bandprotocol/chain/v3/zzverif/props/c06"
 	_ "github.com/bandprotocol/chain/v3/zzverif/props/c07"
